@@ -14,8 +14,8 @@ from harness.props.c09 import H, U, cm3, cv3, rand_rot, rot_from_quat
 
 ID = "C01"
 IMPORTS = "From Evo Require Import Num Linalg Lie Metrics.\n"
-COQ_TARGETS = ["theories/MetricsProofs.vo", "generated/StepsC01.vo", "theories/MetricsTie.vo", "generated/LieGen.vo", "generated/MetricsGen.vo"]
-TRUSTED = ["model Evo.Metrics written by hand from APE.process_data; ties: (T) harness/pyast_metrics.py re-translates APE.ape_base and the error construction + per-relation reduction of APE.process_data (and harness/pyast_np.py the lie_algebra helpers) from the current source on every run; Evo.MetricsTie proves the translated per-pair value equal to the model's ape_pair for every number system and angle oracle; (H) differential run in binary64 (tolerances below), with an independent numpy evaluation of the definition deciding whether a disagreement is a violation",
+COQ_TARGETS = ["theories/MetricsProofs.vo", "generated/StepsC01.vo", "theories/MetricsTieApe.vo", "generated/LieGen.vo", "generated/MetricsGen.vo"]
+TRUSTED = ["model Evo.Metrics written by hand from APE.process_data; ties: (T) harness/pyast_metrics.py re-translates APE.ape_base and the error construction + per-relation reduction of APE.process_data (and harness/pyast_np.py the lie_algebra helpers) from the current source on every run; Evo.MetricsTieApe proves the translated per-pair value equal to the model's ape_pair for every number system and angle oracle; (H) differential run in binary64 (tolerances below), with an independent numpy evaluation of the definition deciding whether a disagreement is a violation",
            "scipy's rotation-angle extraction is an oracle: compared through cos(angle) = (tr E - 1)/2 and sin(angle) = |vee(E - E^T)|/2",
            "CLI clause: the processed trajectories are produced by evo's own components (each tied to its model by C04/C05/C11/C14), "
            "orchestrated independently by the harness in the documented order; the order/wiring inside main_ape.ape/run and "
@@ -41,7 +41,7 @@ def regenerate(ctx):
     except (steps.StepError, OSError, SyntaxError) as e:
         defs = [("main_ape_ape", ["<extraction failed: %s>" % e]), ("main_ape_run", []), ("downsample_or_filter", [])]
     steps.write_generated("StepsC01", defs)
-    return pyast_metrics.regenerate_ties(ctx, common.REPO, common.COQ)
+    return pyast_metrics.regenerate_ties(ctx, common.REPO, common.COQ, only=pyast_metrics.METRIC_HELPERS, metrics="ape")
 
 
 # ------------------------------------------------------------------ helpers
